@@ -1547,3 +1547,4 @@ UNITS = [
 ]
 from props.c16_ext2 import UNITS as _U2; UNITS = UNITS + _U2
 from props.c16_ext3 import UNITS as _U3; UNITS = UNITS + _U3
+from props.c16_ext5 import UNITS as _U5; UNITS = UNITS + _U5
